@@ -95,7 +95,7 @@ func refExpr(tag string, stack map[string]string, upPath func(int) string) (stri
 	case isIdent(tag):
 		v, ok := stack[tag]
 		if !ok {
-			panic("generator emitted a reference to an undefined variable: " + tag)
+			return "", &evalErr{"undefined variable " + tag} // unknown name: a template error
 		}
 		return v, nil
 	case strings.HasPrefix(tag, "Up(") && strings.HasSuffix(tag, ").Path"):
@@ -107,7 +107,7 @@ func refExpr(tag string, stack map[string]string, upPath func(int) string) (stri
 	case strings.HasPrefix(tag, "int(") && strings.HasSuffix(tag, ")"):
 		v, ok := stack[tag[4:len(tag)-1]]
 		if !ok {
-			panic("undefined in int(): " + tag)
+			return "", &evalErr{"undefined variable in " + tag}
 		}
 		n, err := strconv.Atoi(v)
 		if err != nil {
@@ -123,7 +123,7 @@ func refExpr(tag string, stack map[string]string, upPath func(int) string) (stri
 		id, lit := tag[:k], strings.TrimSuffix(tag[k+len(op):], "'")
 		v, ok := stack[id]
 		if !ok {
-			panic("undefined in comparison: " + tag)
+			return "", &evalErr{"undefined variable in " + tag}
 		}
 		return strconv.FormatBool((v == lit) == (op == " == '")), nil
 	case tag == "1 +" || tag == "nosuchfunction(1)":
